@@ -7,7 +7,7 @@
    eval/veq      = Spec/PyEval.v  (CPython on the emitted subset; NaN-tolerant ==)
    wf            = invariants of real object graphs (fields match the class, dict keys
                    distinct hashable scalars, Decimal/float/date payloads well-formed)
-   guard         = g_array && g_enum && g_imports && g_raw && g_init && g_std, one clause per
+   guard         = g_array && g_imports && g_raw && g_init && g_std, one clause per
                    refutation below *)
 From Coq Require Import NArith ZArith List Bool String.
 From XV Require Import Base.Str Spec.PyEval Model.Pycode Proofs.Pycode Proofs.PycodeRefuted.
@@ -24,11 +24,6 @@ Theorem C18_array_refuted :
   exists W o, wf W o = true /\ only_array W o = true /\ roundtrip W o = false.
 Proof. exists W_wit, wit_tuple. exact array_refuted. Qed.
 Print Assumptions C18_array_refuted.
-
-Theorem C18_inner_enum_refuted :
-  exists W o, wf W o = true /\ only_enum W o = true /\ roundtrip W o = false.
-Proof. exists W_wit, wit_enum. exact inner_enum_refuted. Qed.
-Print Assumptions C18_inner_enum_refuted.
 
 Theorem C18_import_collision_refuted :
   exists W o, wf W o = true /\ only_imports W o = true /\ roundtrip W o = false.
@@ -50,15 +45,9 @@ Theorem C18_stdlib_datetime_refuted :
 Proof. exists W_wit, wit_std. exact std_refuted. Qed.
 Print Assumptions C18_stdlib_datetime_refuted.
 
-(* the import lines are not sufficient: once without the g_enum clause, once without g_std *)
-Theorem C18_imports_sufficient_enum_refuted :
-  exists W o n, wf W o = true /\ g_std W o = true /\ In n (heads (repr W o)) /\ is_builtin n = false /\
-                existsb (fun p => str_eqb (snd p) n) (imports W o) = false.
-Proof. exists W_wit, wit_enum, (lit "Kind"). exact imports_sufficient_refuted. Qed.
-Print Assumptions C18_imports_sufficient_enum_refuted.
-
+(* the import lines are not sufficient without the g_std clause *)
 Theorem C18_imports_sufficient_std_refuted :
-  exists W o n, wf W o = true /\ g_enum W o = true /\ In n (heads (repr W o)) /\ is_builtin n = false /\
+  exists W o n, wf W o = true /\ In n (heads (repr W o)) /\ is_builtin n = false /\
                 existsb (fun p => str_eqb (snd p) n) (imports W o) = false.
 Proof. exists W_wit, wit_std, (lit "datetime"). exact imports_sufficient_std_refuted. Qed.
 Print Assumptions C18_imports_sufficient_std_refuted.
@@ -71,7 +60,7 @@ Proof. exact pycode_evals_back. Qed.
 Print Assumptions C18_pycode_evals_back.
 
 Theorem C18_imports_sufficient :
-  forall W o, wf W o = true -> g_enum W o = true -> g_std W o = true ->
+  forall W o, wf W o = true -> g_std W o = true ->
   forall n, In n (heads (repr W o)) -> is_builtin n = true \/ exists m, In (m, n) (imports W o).
 Proof. exact imports_sufficient. Qed.
 Print Assumptions C18_imports_sufficient.
